@@ -6,6 +6,6 @@ CONSTANTS
   MaxOps = 1000000
   GenMode = FALSE
   EmitOn = FALSE
-INVARIANTS Mark TypeOK LockInv QuiescentInv
+INVARIANTS Mark TypeOK LockInv QuiescentInv ObligInv DeadlineInv
 POSTCONDITION TraceDone
 CHECK_DEADLOCK FALSE
